@@ -246,7 +246,7 @@ def _trace(lib, part, cmp, fac, m, dk, h, t, seq, slp, snD, snR, seenD, seenR, h
         rcv.free()
 
 
-B_MODELS = ("sleep", "stack", "islands3")     # models in which the quiet donor (sleeping trees stay asleep) adds something in quick
+B_MODELS = ("sleep",)     # quick: the quiet donor (init-asleep tree stays asleep) only where it adds something; thorough: all
 
 
 def _chunk(chunk):
